@@ -391,6 +391,9 @@ func genMonadFamily(id string) genFn {
 			if id == "C02" && p.pkg == "statet" {
 				continue // StateT programs are lazy: call order across failure is checked in C17 at run time
 			}
+			if id == "C17" && p.pkg != "statet" {
+				continue // C17: every derived StateT combinator against its FlatMap chain, run twice from symbolic states
+			}
 			fns, err := exportedFuncs(filepath.Join(repo, p.pkg))
 			if err != nil {
 				return nil, err
@@ -416,4 +419,5 @@ func genMonadFamily(id string) genFn {
 func init() {
 	generators["C01"] = append(generators["C01"], genMonadFamily("C01"))
 	generators["C02"] = append(generators["C02"], genMonadFamily("C02"))
+	generators["C17"] = append(generators["C17"], genMonadFamily("C17"))
 }
